@@ -138,6 +138,23 @@ def run_timing(job):
         if got != want:
             bad.append(('repeated-send-id:%s' % ('cancelled-but-delivered' if rep['cancel'] else 'instances-lost'), {'executions': rep['times'], 'cancelled': rep['cancel'], 'delivered': got, 'expected': want, 'rep': rep}))
         n += got
+    # macrostep accounting (the C08/C13 rule on this workload): events that arrive through the external queue are only taken at a stable
+    # point, i.e. a stable-configuration notice lies between any processed event and the next external one - also when the event before
+    # was put into the internal queue by the timer thread (delayed #_internal send, error.communication for an undeliverable one) while the
+    # session was idle; and the last event processed is followed by a notice
+    internal = set(s_['ev'] for s_ in sends if s_['target'] == '#_internal') | {'rep', 'error.communication'}
+    pend_stable = None; seen_e = 0
+    for x in sorted((x for x in recs if x[3] in ('E', 'S')), key=lambda x: x[0]):
+        if x[3] == 'S': pend_stable = None; continue
+        nm_ = x[4].split(' ')[1]
+        if not nm_: continue            # the empty wake-up event
+        seen_e += 1
+        if nm_ not in internal and pend_stable is not None:
+            bad.append(('external-event-taken-without-stable-notice-after:%s' % ('internal-event-from-timer-thread' if pend_stable in internal else 'external-event'), {'event': nm_, 'previous_event': pend_stable})); break
+        pend_stable = nm_
+    else:
+        if pend_stable is not None and seen_e:
+            bad.append(('no-stable-notice-after-last-event', {'last_event': pend_stable}))
     errs = sum(1 for x in recs if x[3] == 'E' and x[4].split(' ')[1] == 'error.communication')
     if errs != nbad: bad.append(('undeliverable-delayed-send:error.communication-%d-times-for-%d-sends' % (errs, nbad), {'undeliverable_sends': nbad, 'error_events': errs}))
     rec['bad'] = bad; rec['deliveries'] = n + errs
